@@ -385,6 +385,33 @@ def dead_index_tests(f):
     return out
 
 
+def selector_enables(f):
+    """{rendered selector place: number of `.enable(..)` call sites} (Selector::enable / Region::enable_selector)"""
+    from collections import Counter
+    from ..core import expr_str
+    out = Counter()
+    for n in hirq.calls(f['body']):
+        c = callee(n) or ''
+        if c.endswith('Selector::enable') and 'recv' in n:
+            out[expr_str(peel(n['recv']))[:80]] += 1
+        elif c.endswith('Region::enable_selector') and len(n.get('args', [])) >= 2:
+            out[expr_str(peel(n['args'][1]))[:80]] += 1
+    return out
+
+
+def mine_selectors(w):
+    rows = []
+    for f in w.all_fns(CRATES):
+        if '::tests::' in f['_nid'] or '/tests' in f['file']:
+            continue
+        prop = prop_of_file(f['file'])
+        if prop is None:
+            continue
+        for sel, k in sorted(selector_enables(f).items()):
+            rows.append(dict(property=prop, fn=f['_xid'], selector=sel, sites=k))
+    return rows
+
+
 def load_rules(name):
     p = os.path.join(facts.VERIF, 'rules', name)
     with open(p) as fh:
@@ -594,6 +621,47 @@ def run_d(ck, w, prop, floors):
                   f'{r["fn"]}: `{r["place"]}` was assigned in every arm of an if/else inside a loop ({r["sites"]} site(s)) and is now assigned in only some arms '
                   f'({have} symmetric site(s)): on the other arm the next iteration sees a stale value', hirq.fn_loc(f))
     ck.count(f'{P}.D9 places', len(rows9))
+    # ------------------------------------------------------------------ D14
+    ck.rule(f'{P}.D14', 'shortcut returns honour every operand: in a function that takes an optional constant factor (`multiplying_constant`), every early `return` '
+                        'that hands back (a clone of) another operand is guarded by, or built from, that constant.  `mul(x, one, Some(k))` returning `x` drops k.  '
+                        'Sibling rule over all implementations of ArithInstructions::mul (native chip, foreign field chip, gadgets).')
+    n14 = 0
+    for f in fns:
+        pnames = [b['n'] for p in f.get('params', []) for b in pat_bindings(p)]
+        if 'multiplying_constant' not in pnames:
+            continue
+        operands = [x for x in pnames if x not in ('self', 'layouter', 'multiplying_constant', 'region', 'offset')]
+        for e, cov, node in ret_cover(f):
+            if not (set(cov) & set(operands)):
+                continue
+            from ..core import expr_str
+            from ..engines import valflow as _vf
+            val = set(_vf.ValFlow(f, sources=[(b['n'], b['i'], b.get('t')) for p in f['params'] for b in pat_bindings(p) if b['n'] in operands]).ev(node['e']))
+            if not val:
+                continue            # the returned VALUE is not an operand (e.g. the constant zero): nothing to scale
+            n14 += 1
+            ck.record(f'{P}.D14', f'{f["_xid"]}|return {e[:40]}', 'multiplying_constant' in cov, 'guarded by / built from the constant factor',
+                      f'{f["_nid"]}: `return {e}` hands back the operand {sorted(val)} whatever `multiplying_constant` is: with Some(k), k != 1, the product is '
+                      f'returned unscaled and no constraint ties it to k', hirq.fn_loc(f, node))
+    ck.count(f'{P}.D14 operand shortcuts', n14)
+    # ------------------------------------------------------------------ D13
+    ck.rule(f'{P}.D13', 'selector activations are kept: for each (function, selector place) of rules/selectors.json at least as many `.enable(..)` sites as on the '
+                        'reference tree remain.  D1 only asks that SOME constraint is active at the offset of a witnessed cell; a region that enables two gates '
+                        '(e.g. the arithmetic gate and q_12_minus_34 in cond_swap) and loses one of them still passes D1 while one relation is no longer enforced.')
+    rows13 = [r for r in load_rules('selectors.json') if r['property'] == prop]
+    cache13 = {}
+    for r in rows13:
+        f = w.fn_x(r['fn'], required=False)
+        if f is None:
+            ck.bad(f'{P}.D13', f'{r["fn"]}:anchor', f'function {r["fn"]} of the selector table not found (needs triage)')
+            continue
+        if r['fn'] not in cache13:
+            cache13[r['fn']] = selector_enables(f)
+        have = cache13[r['fn']].get(r['selector'], 0)
+        ck.record(f'{P}.D13', f'{r["fn"]}|{r["selector"]}', have >= r['sites'], f'`{r["selector"]}` enabled at {have} site(s)',
+                  f'{r["fn"]}: selector `{r["selector"]}` was enabled at {r["sites"]} site(s) on the reference tree and is enabled at {have} now: the gate it switches on '
+                  f'no longer constrains the cells assigned in that region', hirq.fn_loc(f))
+    ck.count(f'{P}.D13 selector places', len(rows13))
     # ------------------------------------------------------------------ D12
     ck.rule(f'{P}.D12', 'dead index tests: inside `for (i, _) in array.chunks(R).enumerate()` (array of N elements) or `for i in 0..K`, a branch guarded by '
                         '`i == N / R` / `i == K` can never be taken: the special handling of the LAST element it was meant to select (e.g. zeroing the filler '
